@@ -577,7 +577,7 @@ def form_supported(driver, eff_form):
 
 
 def family(driver):
-    return driver.split("_")[0].split(":")[-1] if driver.startswith(("polar", "qr:")) else driver
+    return "polar" if driver.startswith("polar") else driver
 
 
 def in_domain(driver, eff_form, m, n):
@@ -599,7 +599,7 @@ def guarded_cell(x, method, form, info, **opts):
     if not form_supported(driver, eff):
         # documented: only some forms are valid for some methods -> the call must refuse
         split_call(x, method, form, info=info, **{k: v for k, v in opts.items() if k != "want_info"})
-        raise Violation("unsupported-form-accepted", family=family(driver), **info)
+        raise Violation("unsupported-form-accepted", **dict(info, family=family(driver)))
     return check_cell(x, method, form, info=info, **opts)
 
 
@@ -639,7 +639,7 @@ def dclass(driver):
     return "iterative" if driver in ITERATIVE else ("lossy" if driver in LOSSY else "exact")
 
 
-def table_input(driver, eff_form, shape_i, dtype, seed):
+def table_input(driver, eff_form, shape_i, dtype, seed, trunc):
     """(x, rank or None).  Iterative / randomised drivers get exactly low-rank inputs (exactness is only promised when
     the requested rank covers the true rank); eigsh gets rank d//2+1 so the table stays on its dense branch (its
     sparse branch belongs to sub-check `iterative`)."""
@@ -648,6 +648,8 @@ def table_input(driver, eff_form, shape_i, dtype, seed):
     if driver == "cholesky":
         return make_input(seed, "psd_geo", m, n, dtype), None
     if driver == "eigsh":
+        if trunc == "none":
+            return make_input(seed, "psd_geo", m, n, dtype), None
         r = m // 2 + 1
         return make_input(seed, "psd_lowrank", m, n, dtype, rank=r), r
     if driver in HERMITIAN_ONLY:
@@ -683,9 +685,11 @@ def run_table(case):
             cells += 1
             driver, eff, caps, ignored = plan(method, form, 2 if trunc in ("max_bond", "both") else None,
                                               1.0 if trunc in ("cutoff", "both") else 0.0)
-            x, rank = table_input(driver, eff, sh, dtype, case["seed"])
+            x, rank = table_input(driver, eff, sh, dtype, case["seed"], trunc)
             m, n = x.shape
-            info = dict(base, shp=shape_class(m, n), mode=mode, renorm=repr(renorm), dclass=dclass(driver))
+            info = dict(base, shp=shape_class(m, n), mode=mode, renorm=repr(renorm), dclass=dclass(driver), family=family(driver))
+            if uses_choose_k(driver):
+                info["via_choose_k"] = True
             if not in_domain(driver, eff, m, n):
                 cls["outside-documented-domain"] += 1
                 continue
@@ -714,14 +718,7 @@ def run_table(case):
                         mb, co = kt, cutoff_for(s0, mode, kt + 1)      # the cap binds
             want_info = caps["info"] and (renorm in (0, 1))
             try:
-                try:
-                    out = guarded_cell(x, method, form, info, max_bond=mb, cutoff=co, mode=mode, renorm=renorm, want_info=want_info)
-                except Violation as v:
-                    if driver in ITERATIVE and trunc == "none" and v.reason != "unsupported-form-accepted":
-                        # one class: an iterative driver asked for no truncation at all
-                        raise Violation("iterative-untruncated", sub=v.reason, via_choose_k=uses_choose_k(driver),
-                                        **{k_: v_ for k_, v_ in v.info.items() if k_ in info or k_ in ("exc", "k", "got")}) from v
-                    raise
+                out = guarded_cell(x, method, form, info, max_bond=mb, cutoff=co, mode=mode, renorm=renorm, want_info=want_info)
             except CellReject as r:
                 cls["rejected:" + r.why] += 1
                 continue
@@ -747,7 +744,7 @@ def collections_counter():
 
 GENERAL_KINDS = ("gauss", "gauss", "rank_k", "degenerate", "spread", "zeros", "identity", "wellcond", "geometric")
 WELL_KINDS = ("wellcond", "geometric", "degenerate")
-HERM_KINDS = ("herm_indef", "herm_geo", "psd_wc", "psd_geo", "hermitian", "psd", "zeros", "identity")
+HERM_KINDS = ("herm_indef", "herm_geo", "psd_wc", "psd_geo", "psd_lowrank", "hermitian", "psd", "zeros", "identity")
 PSD_KINDS = ("psd_wc", "psd_geo", "psd", "identity")
 
 
@@ -787,7 +784,7 @@ def indefinite(x):
 
 def std_info(case, x, driver, eff):
     return dict(method=case["method"], form=str(case["form"]), single=is_single(case["dtype"]), shp=shape_class(*x.shape),
-                dclass=dclass(driver))
+                dclass=dclass(driver), zero_input=not bool(np.any(x)))
 
 
 def std_classes(case, out, x):
@@ -854,9 +851,9 @@ def run_untruncated(case):
     info = std_info(case, x, driver, eff)
     s0 = np.linalg.svd(x.astype(np.complex128), compute_uv=False)
     info["rankdef"] = bool(s0[-1] <= 1e-7 * max(s0[0], 1e-300))
-    info["zero_input"] = bool(s0[0] == 0.0)
     if driver in HERMITIAN_ONLY:
-        info["indefinite"] = indefinite(x)
+        w = np.linalg.eigvalsh(x.astype(np.complex128))
+        info["nonpos_eig"] = bool(w.min() <= 1e-12 * max(abs(w).max(), 1e-300))
         info["sqrt_form"] = eff in SQRT_FORMS
     opts = dict(max_bond=None, cutoff=None if case["cutoff_none"] else 0.0)
     if driver == "lu":
@@ -937,7 +934,7 @@ def s_iterative(draw, tier):
     method = draw(st.sampled_from([mth for mth in reg["drivers"] if mth in ITERATIVE]))
     form = draw(st.sampled_from(["auto"] + list(ALL_FORMS)))
     herm_ = method in HERMITIAN_ONLY
-    m, n = draw(s_shape(square=herm_, lo=2, hi=12))
+    m, n = draw(s_shape(square=herm_, lo=3, hi=12))  # scipy's interpolative estimate_rank fails on 2-row inputs
     r = draw(st.integers(1, min(3, m, n)))
     req = draw(st.sampled_from(["cap", "cap", "cap+cutoff", "cutoff"]))
     if not registry()["caps"][method]["cutoff"]:
@@ -955,6 +952,8 @@ def run_iterative(case):
     mb = min(d, case["rank"] + case["slack"]) if "cap" in case["req"] else None
     co = (1e-3 if single else 1e-8) if "cutoff" in case["req"] else 0.0
     driver, eff, caps, _ = plan(method, form, mb, co)
+    if driver in HERMITIAN_ONLY and eff in SQRT_FORMS and case["req"] == "cap":
+        mb = min(d, case["rank"])  # sqrt of a kept (numerically) zero eigenvalue: finding C05-i, owned by `untruncated`
     info = std_info(case, x, driver, eff)
     k_req = mb if mb is not None else case["rank"]
     info["sparse_branch"] = bool(uses_choose_k(driver) and k_req <= d // 2)
@@ -965,3 +964,477 @@ def run_iterative(case):
         raise Reject("refused:" + r.why)
     cls = std_classes(case, out, x) + ["req=" + case["req"]] + (["sparse-branch"] if info["sparse_branch"] else ["dense-branch"])
     return {"nt": True, "cls": cls, "err": out["err"]}
+
+
+# ---------------------------------------------------------------------------
+# 5. Tensor.split / tensor_split: labels, bond, tags, isometry flags on the wrapped tensors
+# ---------------------------------------------------------------------------
+
+def qtn():
+    import quimb.tensor as qtn_
+
+    return qtn_
+
+
+# forms the docstring of tensor_split lists
+TS_FORMS = ("auto", "both", "left", "right", None, "lorthog", "rorthog", "lfactor", "rfactor")
+TS_METHODS = ("svd", "svd", "qr", "lq", "auto", "svd:eig", "eigh", "polar_right", "polar_left", "cholesky", "qr:cholesky", "lu")
+
+
+@st.composite
+def s_tensor_split(draw, tier):
+    method = draw(st.sampled_from([mth for mth in TS_METHODS if mth in registry()["methods"]]))
+    drv0, _ = resolve_method(method, "right", False)
+    square = drv0 in HERMITIAN_ONLY or drv0 == "cholesky" or drv0.startswith("polar")
+    if square:
+        d0 = draw(st.sampled_from([1, 2, 2, 3]))
+        dims_l = dims_r = [d0] * draw(st.integers(1, 2))
+    else:
+        rank = draw(st.integers(2, 5))
+        dims = draw(st.lists(st.sampled_from([1, 2, 2, 3, 3, 4]), min_size=rank, max_size=rank))
+        nl = draw(st.integers(1, rank - 1))
+        dims_l, dims_r = dims[:nl], dims[nl:]
+    nl, nr = len(dims_l), len(dims_r)
+    form = draw(st.sampled_from([f for f in forms_for(drv0 if method != "auto" else "svd") if f in TS_FORMS]))
+    driver, eff, caps, _ = plan(method, form, None, 0.0)
+    if not form_supported(driver, eff) or (driver == "qr:cholesky"):
+        form = "auto"
+        driver, eff, caps, _ = plan(method, form, None, 0.0)
+    dtype = draw(st.sampled_from(A.DTYPES64 if driver in LOSSY else A.DTYPES))
+    if driver == "cholesky":
+        kind = "psd_wc"
+    elif driver in HERMITIAN_ONLY:
+        kind = draw(st.sampled_from(("psd_wc", "psd_geo") if eff in SQRT_FORMS else ("herm_indef", "herm_geo", "psd_wc")))
+    elif driver in LOSSY:
+        kind = "wellcond"
+    elif driver == "lu":
+        kind = draw(st.sampled_from(("gauss", "rank_k", "wellcond")))  # zero input + lu: finding C05-p, owned by `untruncated`
+    else:
+        kind = draw(st.sampled_from(("gauss", "gauss", "rank_k", "zeros", "degenerate", "wellcond")))
+    two = FORM_RETURNS[eff if caps["absorb"] else default_form(driver)][0] and FORM_RETURNS[eff if caps["absorb"] else default_form(driver)][2]
+    get = draw(st.sampled_from([None, "tensors", "arrays"] if two else ["tensors", "arrays"]))
+    if driver in SVD_TYPE and draw(st.integers(0, 5)) == 0:
+        get = "values"
+    trunc = draw(st.sampled_from(["zero-cutoff", "zero-cutoff", "default", "cap"]))
+    return {"method": method, "form": form, "dtype": dtype, "kind": kind, "seed": draw(A.seeds), "dims_l": dims_l, "dims_r": dims_r,
+            "store": draw(st.permutations(list(range(nl + nr)))), "lorder": draw(st.permutations(list(range(nl)))),
+            "get": get, "trunc": trunc, "max_bond": draw(st.integers(1, 4)), "bond": draw(st.sampled_from([None, "bnd", "k"])),
+            "msv": draw(st.booleans()), "tags": draw(st.booleans()), "give_right": draw(st.sampled_from(["no", "no", "yes", "only"])),
+            "rank": draw(st.integers(1, 3)), "entry": draw(st.sampled_from(["method", "function"]))}
+
+
+def run_tensor_split(case):
+    Q = qtn()
+    method, form = case["method"], case["form"]
+    dl, dr = case["dims_l"], case["dims_r"]
+    nl, nr = len(dl), len(dr)
+    labels_l = [f"l{i}" for i in range(nl)]
+    labels_r = [f"r{i}" for i in range(nr)]
+    size = dict(zip(labels_l + labels_r, dl + dr))
+    order = labels_l + labels_r
+    stored = [order[i] for i in case["store"]]
+    # the bipartition as quimb will see it: rows = left labels in the order given (stored order when only
+    # right_inds is passed), columns = right labels in stored order (or in the order of right_inds when given)
+    right = [l for l in stored if l in labels_r]
+    if case["give_right"] != "no":
+        right = list(reversed(right))
+    if case["give_right"] == "only":
+        left = [l for l in stored if l in labels_l]
+    else:
+        left = [labels_l[i] for i in case["lorder"]]
+    M, N = int(np.prod(dl)), int(np.prod(dr))
+    # contents are defined on that matrix (so Hermitian / positive inputs are Hermitian for the split under test)
+    xm = make_input(case["seed"], case["kind"], M, N, case["dtype"], rank=case["rank"])
+    full = xm.reshape([size[l] for l in left + right])
+    T = Q.Tensor(np.ascontiguousarray(np.transpose(full, [(left + right).index(l) for l in stored])), inds=stored, tags=["T0", "X"])
+    order = left + right
+    mb = case["max_bond"] if case["trunc"] == "cap" else None
+    kw = dict(method=method, absorb=form, get=case["get"])
+    mode = "rel"  # documented default of tensor_split
+    if case["trunc"] == "default":
+        co = 1e-10
+    else:
+        co = 0.0
+        kw["cutoff"] = 0.0
+    if mb:
+        kw["max_bond"] = mb
+    driver, eff, caps, _ = plan(method, form, mb, co)
+    if not in_domain(driver, eff, M, N):
+        raise Reject("outside documented domain")
+    if driver == "lu":
+        kw["cutoff_mode"] = "rel"
+    if driver.startswith("polar") and M != N:
+        raise Reject("non-square polar (finding C05-d is owned by `table`)")
+    if case["bond"] is not None and case["get"] in (None, "tensors"):
+        kw["bond_ind"] = (case["bond"] + "L", case["bond"] + "R") if (case["msv"] and form is None) else case["bond"]
+    if case["msv"] and form is None:
+        kw["matrix_svals"] = True
+    if case["tags"]:
+        kw.update(ltags=["LT"], rtags=["RT"], stags=["ST"])
+    info = dict(method=method, form=str(form), single=is_single(case["dtype"]), shp=shape_class(M, N), dclass=dclass(driver),
+                get=str(case["get"]), zero_input=not bool(np.any(xm)))
+    if case["give_right"] == "yes":
+        kw["right_inds"] = right
+    if case["give_right"] == "only":
+        kw["right_inds"] = right
+        left_arg = None
+    else:
+        left_arg = left
+    T0 = T.copy()
+
+    def call():
+        if case["entry"] == "method":
+            return T.split(left_arg, **kw)
+        return Q.tensor_split(T, left_arg, **kw)
+
+    try:
+        res = call_quimb(call, info)
+    except CellReject as r:
+        raise Reject("refused:" + r.why)
+    if not (np.array_equal(T.data, T0.data) and T.inds == T0.inds):
+        raise Violation("input-mutated", **info)
+    s0 = np.linalg.svd(xm.astype(np.complex128), compute_uv=False)
+    tol = tol_class(driver, case["dtype"])
+    if case["get"] == "values":
+        v = np.asarray(res, dtype=np.float64)
+        if kw.get("matrix_svals") and v.ndim == 2:
+            v = np.diag(v)
+        if v.shape != s0.shape:
+            raise Violation("values-shape", got=list(v.shape), **info)
+        e = rel_err(np.sort(v)[::-1], s0, floor=max(s0[0], 1e-300))
+        if not e <= tol:
+            raise Violation("values", err=e, tol=tol, **info)
+        return {"nt": True, "cls": ["get=values", "method=" + method], "err": e}
+    sep = form is None
+    parts = list(res.tensors) if isinstance(res, Q.TensorNetwork) else list(res)
+    if case["get"] is None:
+        if not isinstance(res, Q.TensorNetwork):
+            raise Violation("return-type", got=repr(type(res)), **info)
+        # a network: find the factors by their labels
+        Tl = next((t for t in parts if set(left) <= set(t.inds)), None)
+        Tr = next((t for t in parts if set(right) <= set(t.inds)), None)
+        Ts = next((t for t in parts if t is not Tl and t is not Tr), None)
+        if (len(parts) != (3 if sep else 2)) or Tl is None or Tr is None:
+            raise Violation("network-parts", n=len(parts), **info)
+    else:
+        if len(parts) != (3 if sep else 2):
+            raise Violation("parts-returned", n=len(parts), **info)
+        Tl, Tr = parts[0], parts[-1]
+        Ts = parts[1] if sep else None
+    msv = bool(kw.get("matrix_svals"))
+    if case["get"] == "arrays":
+        La, Ra = Tl, Tr
+        sa = Ts
+    else:
+        # ---- labels, bond, tags, flags of the wrapped tensors -----------------------------
+        b_l = b_r = None
+        if Tl is not None:
+            if tuple(Tl.inds[:-1]) != tuple(left):
+                raise Violation("left-labels", got=list(Tl.inds), want=left, **info)
+            b_l = Tl.inds[-1]
+        if Tr is not None:
+            if tuple(Tr.inds[1:]) != tuple(right):
+                raise Violation("right-labels", got=list(Tr.inds), want=right, **info)
+            b_r = Tr.inds[0]
+        if Tl is not None and Tr is not None and not msv and b_l != b_r:
+            raise Violation("bond-label", got=[b_l, b_r], **info)
+        if "bond_ind" in kw:
+            wantb = kw["bond_ind"] if msv else (kw["bond_ind"], kw["bond_ind"])
+            if (b_l is not None and b_l != wantb[0]) or (b_r is not None and b_r != wantb[1]):
+                raise Violation("bond-name", got=[b_l, b_r], want=list(wantb), **info)
+        for b in (b_l, b_r):
+            if b is not None and b in order:
+                raise Violation("bond-collides", got=b, **info)
+        if Ts is not None:
+            wants = (b_l, b_r) if msv else (b_l,)
+            if tuple(Ts.inds) != tuple(wants):
+                raise Violation("values-labels", got=list(Ts.inds), want=list(wants), **info)
+        base_tags = {"T0", "X"}
+        for t, extra_ in ((Tl, "LT"), (Ts, "ST"), (Tr, "RT")):
+            if t is not None:
+                want_tags = base_tags | ({extra_} if case["tags"] else set())
+                if set(t.tags) != want_tags:
+                    raise Violation("tags", got=sorted(t.tags), want=sorted(want_tags), **info)
+        # flagged isometries, straight from the tensors
+        for t, side, lab in ((Tl, "left", left), (Tr, "right", right)):
+            if t is not None and t.left_inds is not None:
+                if set(t.left_inds) != set(lab):
+                    raise Violation("left_inds-labels", side=side, got=list(t.left_inds), **info)
+                dfc = iso_defect(t.data, t.inds, t.left_inds)
+                if not dfc <= 10 * tol * max(1.0, math.sqrt(t.shape[-1 if side == "left" else 0])):
+                    raise Violation("isometry-flag", side=side, defect=round(dfc, 4), level="tensor", **info)
+        La = Tl.data if Tl is not None else None
+        Ra = Tr.data if Tr is not None else None
+        sa = Ts.data if Ts is not None else None
+        if case["get"] is None:
+            # the returned network denotes the (truncated) tensor: evaluated below through the fused factors as well
+            arrs = [(np.asarray(t.data).astype(np.complex128), tuple(t.inds)) for t in parts]
+            val = einsum_value(arrs, left + right).reshape(M, N)
+    # ---- unfused factors -> matrices, then the array-level oracle ------------------------------------
+    if La is not None:
+        La = np.asarray(La)
+        if tuple(La.shape[:-1]) != tuple(size[l] for l in left):
+            raise Violation("factor-shape", which="left", got=list(La.shape), **info)
+        La = La.reshape(M, La.shape[-1])
+    if Ra is not None:
+        Ra = np.asarray(Ra)
+        if tuple(Ra.shape[1:]) != tuple(size[l] for l in right):
+            raise Violation("factor-shape", which="right", got=list(Ra.shape), **info)
+        Ra = Ra.reshape(Ra.shape[0], N)
+    if sa is not None:
+        sa = np.asarray(sa)
+        if msv:
+            if sa.ndim != 2 or np.any(sa - np.diag(np.diag(sa)) != 0):
+                raise Violation("matrix-svals-not-diagonal", **info)
+            sa = np.diag(sa)
+    out = verify(xm, La, sa, Ra, None, method, form, max_bond=mb, cutoff=co, mode=mode, renorm=None, info=info)
+    err = out["err"]
+    if case["get"] is None:
+        prod = (La.astype(np.complex128) * sa[None, :]) @ Ra if sa is not None else La.astype(np.complex128) @ Ra
+        e = rel_err(val, prod, floor=max(core.fro(xm), 1e-300))
+        if not e <= tol:
+            raise Violation("network-value", err=e, **info)
+        err = max(err, e)
+    cls = ["method=" + method, "form=" + str(form), "get=" + str(case["get"]), "trunc=" + case["trunc"], f"rank={nl + nr}",
+           "kind=" + case["kind"], "give_right=" + case["give_right"]]
+    if out["removed"]:
+        cls.append("removed>=1")
+    return {"nt": bool(out["removed"] or out["rankdef"] or 1 in (M, N) or is_single(case["dtype"]) or nl + nr > 2), "cls": cls, "err": err}
+
+
+# ---------------------------------------------------------------------------
+# 6. generic (batched) implementation vs accelerated 2-D implementation of the same method
+# ---------------------------------------------------------------------------
+
+BATCH_METHODS = ("svd", "svd", "svd:eig", "eigh", "qr", "lq", "cholesky", "qr:cholesky", "polar_right", "polar_left", "svd:rand")
+
+
+@st.composite
+def s_batch(draw, tier):
+    reg = registry()
+    method = draw(st.sampled_from([mth for mth in BATCH_METHODS if mth in reg["methods"]]))
+    drv0, _ = resolve_method(method, "right", False)
+    form = draw(st.sampled_from(forms_for(drv0)))
+    driver, eff, caps, _ = plan(method, form, None, 0.0)
+    dtype = draw(st.sampled_from(A.DTYPES64 if driver in LOSSY else A.DTYPES))
+    if driver == "cholesky":
+        m, n = draw(s_shape(square=True, lo=1, hi=6))
+        kind = "psd_wc"
+    elif driver in HERMITIAN_ONLY:
+        m, n = draw(s_shape(square=True, lo=2, hi=6))
+        kind = draw(st.sampled_from(("psd_geo", "psd_wc") if eff in SQRT_FORMS else ("herm_geo", "herm_indef", "psd_geo")))
+    elif driver == "qr:cholesky":
+        m, n = draw(s_shape(orient="tall" if eff in ("right", "lorthog", "rfactor") else "wide", hi=6))
+        kind = draw(st.sampled_from(WELL_KINDS))
+    elif driver.startswith("polar"):
+        m, n = draw(s_shape(square=True, hi=6))
+        kind = draw(st.sampled_from(WELL_KINDS + ("gauss",)))
+    elif driver in LOSSY:
+        m, n = draw(s_shape(lo=2, hi=6))
+        kind = draw(st.sampled_from(WELL_KINDS))
+    else:
+        m, n = draw(s_shape(hi=6))
+        kind = draw(st.sampled_from(("gauss", "geometric", "degenerate", "wellcond", "rank_k")))
+    nb = draw(st.sampled_from([1, 1, 1, 2, 3]))
+    can_dyn = caps["cutoff"]
+    if nb == 1:
+        trunc = draw(st.sampled_from(TRUNCS if can_dyn else ("none", "max_bond")))
+    else:
+        trunc = draw(st.sampled_from(("none", "max_bond")))  # a batch keeps the maximum count over its members (undocumented): static only
+    if not caps["max_bond"]:
+        trunc = "none"
+    return {"method": method, "form": form, "dtype": dtype, "m": m, "n": n, "kind": kind, "seed": draw(A.seeds), "nb": nb,
+            "trunc": trunc, "mode": draw(st.sampled_from(reg["modes"])), "kt": draw(st.integers(1, 5)),
+            "renorm": draw(st.sampled_from([None, None, 0, True, 1, 2])) if nb == 1 else None,
+            "want_info": draw(st.booleans()), "lead": draw(st.sampled_from([1, 1, 2]))}
+
+
+def run_batch(case):
+    D = dmod()
+    method, form, mode = case["method"], case["form"], case["mode"]
+    nb = case["nb"]
+    xs = [make_input(case["seed"] + 7 * i, case["kind"], case["m"], case["n"], case["dtype"], rank=2) for i in range(nb)]
+    s0 = np.linalg.svd(xs[0].astype(np.complex128), compute_uv=False)
+    d = len(s0)
+    mb, co = None, 0.0
+    kt = 1 + (case["kt"] - 1) % max(d - 1, 1)
+    if case["trunc"] in ("max_bond", "both"):
+        mb = kt if case["trunc"] == "max_bond" else kt + 1
+    if case["trunc"] in ("cutoff", "both") and d >= 2 and s0[0] > 0:
+        co = cutoff_for(s0, mode, kt)
+    driver, eff, caps, _ = plan(method, form, mb, co)
+    renorm = case["renorm"] if caps["renorm"] else None
+    p_on = any(p > 0 for p in renorm_power(renorm, mode)) and renorm not in (None, 0, False)
+    info = dict(method=method, form=str(form), single=is_single(case["dtype"]), shp=shape_class(case["m"], case["n"]),
+                dclass=dclass(driver), family=family(driver), batched=True, renorm_on=bool(p_on), nb=nb)
+    want_info = case["want_info"] and caps["info"]
+    opts = dict(max_bond=mb, cutoff=co, mode=mode, renorm=renorm)
+    extra = {"seed": 3} if driver == "svd:rand" else None
+    # accelerated 2-D path on every member (its own correctness is the business of the other sub-checks)
+    accepted2d = True
+    try:
+        for x in xs:
+            split_call(x, method, form, want_info=want_info, extra=extra, info=dict(info, batched=False), **opts)
+    except CellReject:
+        accepted2d = False
+    xb = np.stack(xs).reshape((1,) * (case["lead"] - 1) + (nb,) + xs[0].shape)
+    try:
+        L, s, R, idict = split_call(xb, method, form, want_info=want_info, extra=extra, info=info, **opts)
+    except CellReject as r:
+        if accepted2d:
+            raise Violation("differential-acceptance", generic="refused:" + r.why, **info)
+        raise Reject("both refuse")
+    if not accepted2d:
+        raise Violation("differential-acceptance", generic="accepted", **info)
+    lead = xb.shape[:-2]
+    errs = [0.0]
+    removed = 0
+    rep = None
+    if idict is not None:
+        rep = idict.get("error")
+        if rep is None:
+            raise Violation("info-error-missing", **info)
+        rep = np.broadcast_to(np.asarray(rep, dtype=np.float64), lead).reshape(-1)
+    for i, x in enumerate(xs):
+        def member(a):
+            if a is None:
+                return None
+            a = np.asarray(a)
+            if a.shape[:len(lead)] != lead:
+                raise Violation("batch-shape", got=list(a.shape), **info)
+            return a.reshape((nb,) + a.shape[len(lead):])[i]
+        out = verify(x, member(L), member(s), member(R), idict, method, form, info=info, count_rule=(nb == 1),
+                     report=None if rep is None else rep[i], **opts)
+        errs.append(out["err"])
+        removed = max(removed, out["removed"])
+    cls = ["method=" + method, "form=" + str(form), f"nb={nb}", "trunc=" + case["trunc"], "renorm=" + repr(renorm), f"lead={case['lead']}"]
+    if removed:
+        cls.append("removed>=1")
+    return {"nt": True, "cls": cls, "err": max(errs)}
+
+
+# ---------------------------------------------------------------------------
+# 7. history independence of the memoised option parser
+# ---------------------------------------------------------------------------
+
+TWIN = {True: 1, 1: True, False: 0, 0: False}
+H_RENORM = (None, False, 0, True, 1, 2)
+H_CUTOFF = (0.0, 0, 1e-2, 0.3)
+H_MAXBOND = (None, 1, 2, 3)
+
+
+@st.composite
+def s_history(draw, tier):
+    reg = registry()
+
+    def opts():
+        return {"method": draw(st.sampled_from(["svd", "svd", "auto", "eigh", "svd:eig"])),
+                "absorb": draw(st.sampled_from([None, "s", "both", "left", "auto"])),
+                "max_bond": draw(st.sampled_from(H_MAXBOND)), "cutoff": draw(st.sampled_from(H_CUTOFF)),
+                "cutoff_mode": draw(st.sampled_from(reg["modes"])), "renorm": draw(st.sampled_from(H_RENORM))}
+
+    b = opts()
+    how = draw(st.sampled_from(["twin", "twin", "random", "same"]))
+    if how == "twin":
+        a = dict(b)
+        keys = [k for k in ("renorm", "cutoff") if type(b[k]) in (bool, int) and b[k] in TWIN and not (k == "cutoff" and b[k] != 0)]
+        if keys:
+            k = draw(st.sampled_from(keys))
+            a[k] = TWIN[b[k]]
+            if k == "cutoff" and b[k] == 0:
+                a[k] = 0.0 if isinstance(b[k], int) else 0
+        else:
+            how = "random"
+            a = opts()
+    elif how == "random":
+        a = opts()
+    else:
+        a = dict(b)
+    return {"a": _enc(a), "b": _enc(b), "how": how, "m": draw(st.integers(2, 7)), "n": draw(st.integers(2, 7)), "seed": draw(A.seeds),
+            "dtype": draw(st.sampled_from(A.DTYPES64))}
+
+
+class Refused:
+    def __init__(self, why):
+        self.why = why
+
+
+def _enc(o):
+    # JSON cannot tell True from 1 apart after a round trip through some tools; keep the Python type explicit
+    return {k: (["bool", v] if isinstance(v, bool) else v) for k, v in o.items()}
+
+
+def _dec(o):
+    return {k: (bool(v[1]) if isinstance(v, list) and v and v[0] == "bool" else v) for k, v in o.items()}
+
+
+def run_history(case):
+    D = dmod()
+    a, b = _dec(case["a"]), _dec(case["b"])
+    herm_ = "eigh" in (a["method"], b["method"])
+    m = case["m"]
+    n = m if herm_ else case["n"]
+    x = make_input(case["seed"], "psd_geo" if herm_ else "geometric", m, n, case["dtype"])  # psd: sqrt forms stay finite (C05-i)
+    info = dict(how=case["how"], method=b["method"], renorm=repr(b["renorm"]), mode=b["cutoff_mode"],
+                differs=sorted(k for k in b if a[k] is not b[k] and not (a[k] == b[k] and type(a[k]) is type(b[k]))),
+                equal_keys=all(a[k] == b[k] for k in b))
+
+    def call(o):
+        try:
+            return call_quimb(lambda: D.array_split(x.copy(), **o), info)
+        except CellReject as r:
+            return Refused(r.why)
+
+    core.reset_quimb_state()
+    call(a)
+    after_a = call(b)
+    core.reset_quimb_state()
+    fresh = call(b)
+    if isinstance(fresh, Refused):
+        if not isinstance(after_a, Refused):
+            raise Violation("history-dependent", what="acceptance", **info)
+        raise Reject("refused:" + fresh.why)
+    if isinstance(after_a, Refused):
+        raise Violation("history-dependent", what="acceptance", **info)
+    err = 0.0
+    for nm, u, v in zip(("left", "s", "right"), after_a, fresh):
+        if (u is None) != (v is None):
+            raise Violation("history-dependent", what="parts", **info)
+        if u is None:
+            continue
+        u, v = np.asarray(u), np.asarray(v)
+        if u.shape != v.shape:
+            raise Violation("history-dependent", what="kept-count", which=nm, **info)
+        e = rel_err(u, v, floor=max(core.fro(x), 1e-300))
+        err = max(err, e)
+        if not e <= 1e-12:
+            raise Violation("history-dependent", what="values", which=nm, err=e, **info)
+    return {"nt": case["how"] != "same", "cls": ["how=" + case["how"], "method=" + b["method"], "renorm=" + repr(b["renorm"])], "err": err}
+
+
+SUBCHECKS = [
+    SubCheck("table", run_table, enum=enum_table, exhaustive=True, shards=(16, 16), soft_budget=(300.0, 900.0), hard_timeout=(600.0, 1800.0),
+             rule="every registered method + parser alias x every form + auto x dtype x 2 shapes x {none, max_bond, cutoff, both} as one case "
+                  "= 24 cells (6 cutoff modes x renorm in {0, True, 1, 2}); inputs in each driver's documented domain, cutoffs placed "
+                  "inside a gap of the reference spectrum; cells refused with ValueError/NotImplementedError are counted as rejected cells; "
+                  "nt cell: >= 1 value removed or single precision or rank-deficient input"),
+    SubCheck("untruncated", run_untruncated, s_untruncated, examples=(700, 8000), shards=(2, 6),
+             rule="direct / Gram-based methods x the forms each documents, shapes 1..8 x 1..8, kinds incl. exact rank k, zeros, degenerate, "
+                  "Hermitian indefinite / psd / rank-deficient psd, cutoff 0.0 or None and no cap; nt: rank-deficient or dimension 1 or single"),
+    SubCheck("truncated", run_truncated, s_truncated, examples=(500, 8000), shards=(3, 8),
+             rule="svd / svd:eig / eigh / auto x all forms x 6 modes x cutoff (inside a gap +- jitter, or raw 10**u) x cap x renorm x info: "
+                  "kept count == documented rule (ambiguity band), best rank-k, reported error == distance, renormalisation; nt: removed >= 1 etc."),
+    SubCheck("iterative", run_iterative, s_iterative, examples=(500, 6000), shards=(1, 4),
+             rule="svds / isvd / rsvd / eigsh / svd:rand on exactly rank-r inputs (3..12) with cap >= r and/or a tiny cutoff, sparse and dense "
+                  "branches; all nt (rank-deficient by construction)"),
+    SubCheck("tensor_split", run_tensor_split, s_tensor_split, examples=(500, 6000), shards=(2, 6),
+             rule="Tensor.split / tensor_split on rank 2-5 tensors, random bipartition, stored axis order, left order, right_inds, get in "
+                  "{None, tensors, arrays, values}, bond_ind, matrix_svals, tags: labels, bond, tags, left_inds flags (iso_defect), value of the "
+                  "returned network (einsum) and the array-level oracle on the unfused factors; nt: rank > 2 or removed >= 1 or single ..."),
+    SubCheck("batch", run_batch, s_batch, examples=(500, 6000), shards=(2, 6),
+             rule="array_split on a batch (1-3 members, 1-2 leading axes: generic implementation) vs the same call on each 2-D member "
+                  "(accelerated implementation): same acceptance, every member satisfies the full oracle; all nt"),
+    SubCheck("history", run_history, s_history, examples=(400, 5000), shards=(1, 4),
+             rule="array_split(A) then array_split(B) vs array_split(B) after core.reset_quimb_state(), A an equal-but-differently-typed twin of B "
+                  "(True/1, False/0, 0/0.0), a random option set, or B itself; results must be identical; nt: A is not B"),
+]
